@@ -35,12 +35,15 @@ struct cmsg {
   size_t start, hdr_end /* after Len/ext-len/code */, tok_end, end;
   size_t ws_start; /* start of the WS frame header (WS only) */
   int is_signal;
+  size_t big_plen; /* >0: the payload is big_plen bytes of the pattern 0x30 + i % 41 (not stored) */
 };
 struct stream {
   char name[40];
   int ws;
-  uint8_t b[4096];
+  uint8_t b[70400];
   size_t n;
+  size_t cutpos[200]; /* ncutpos > 0: cuts are placed at these offsets only (a 66 KiB stream has too many pairs of offsets) */
+  int ncutpos;
   struct cmsg msgs[12];
   int nmsgs;
   size_t http_end; /* WS: end of the HTTP upgrade request */
@@ -139,6 +142,47 @@ stream_add(struct stream *s, struct cmsg m) {
   s->msgs[s->nmsgs++] = m;
 }
 
+/* a message in the fourth TCP length form (Len nibble 15, 32-bit extended length): options + payload >= 65805 bytes */
+static void
+stream_add_big(struct stream *s, int code, size_t tkl, size_t plen) {
+  struct cmsg m;
+  memset(&m, 0, sizeof m);
+  m.code = code;
+  m.tkl = tkl;
+  for (size_t i = 0; i < tkl; i++)
+    m.token[i] = (uint8_t)(0xC0 + (i * 7 + tkl) % 61);
+  m.opts[0].num = 11;
+  m.opts[0].len = 1;
+  m.opts[0].val[0] = 't';
+  m.nopts = 1;
+  m.plen = plen;
+  m.big_plen = plen;
+  size_t bl = 2 + 1 + plen;
+  if (bl < 65805 || tkl > 12 || s->n + bl + 20 > sizeof s->b) {
+    fprintf(stderr, "VX-HARNESS: c05-big-message-parameters\n");
+    abort();
+  }
+  m.start = s->n;
+  s->b[s->n++] = (uint8_t)(15 << 4 | tkl);
+  uint32_t x = (uint32_t)(bl - 65805);
+  s->b[s->n++] = (uint8_t)(x >> 24);
+  s->b[s->n++] = (uint8_t)(x >> 16);
+  s->b[s->n++] = (uint8_t)(x >> 8);
+  s->b[s->n++] = (uint8_t)x;
+  s->b[s->n++] = (uint8_t)code;
+  m.hdr_end = s->n;
+  memcpy(s->b + s->n, m.token, tkl);
+  s->n += tkl;
+  m.tok_end = s->n;
+  s->b[s->n++] = 0xB1;
+  s->b[s->n++] = 't';
+  s->b[s->n++] = 0xFF;
+  for (size_t i = 0; i < plen; i++)
+    s->b[s->n++] = (uint8_t)(0x30 + i % 41);
+  m.end = s->n;
+  s->msgs[s->nmsgs++] = m;
+}
+
 static struct cmsg
 mk(int code, size_t tkl, int nopts_kind, size_t plen) {
   struct cmsg m;
@@ -219,7 +263,7 @@ stream_begin(struct stream *s, const char *name, int ws) {
   stream_add(s, csm);
 }
 
-#define NSTREAMS 11
+#define NSTREAMS 12
 static struct stream streams[NSTREAMS];
 static int nstreams;
 
@@ -260,6 +304,24 @@ build_streams(void) {
     stream_add(s, mk(0x01, 1, 0, 0));
   }
   s->expect_msgs = 4;
+  /* T3b: the fourth length form in a VALID message (options + payload = 65815 bytes), between two short ones.  Cuts are
+   * placed in and around the three headers, at the end of the long message and around the first two buffer-size reads. */
+  s = &streams[nstreams++];
+  stream_begin(s, "tcp-len32", 0);
+  stream_add(s, mk(0x01, 1, 0, 0));
+  stream_add_big(s, 0x02, 4, 65812);
+  stream_add(s, mk(0x03, 2, 1, 5));
+  s->expect_msgs = 3;
+  {
+    const struct cmsg *bm = &s->msgs[2]; /* msgs[0] is the CSM */
+    for (size_t c = 1; c <= bm->start + 16 && c < s->n; c++)
+      s->cutpos[s->ncutpos++] = c;
+    for (int k = 1; k <= 2; k++)
+      for (int d = -1; d <= 1; d++)
+        s->cutpos[s->ncutpos++] = (size_t)((long)bm->start + 1472 * k + d);
+    for (size_t c = bm->end - 6; c < s->n; c++)
+      s->cutpos[s->ncutpos++] = c;
+  }
   /* T4: declared length above the maximum: session must be closed, nothing buffered */
   s = &streams[nstreams++];
   stream_begin(s, "tcp-oversize", 0);
@@ -424,7 +486,14 @@ expected_rec(const struct cmsg *m, struct rec *r) {
   r->opth = h;
   r->nopts = m->nopts;
   r->plen = m->plen;
-  r->payh = vx_fnv(m->payload, m->plen, VX_FNV0);
+  if (m->big_plen) {
+    uint8_t *pb = malloc(m->big_plen);
+    for (size_t i = 0; i < m->big_plen; i++)
+      pb[i] = (uint8_t)(0x30 + i % 41);
+    r->payh = vx_fnv(pb, m->big_plen, VX_FNV0);
+    free(pb);
+  } else
+    r->payh = vx_fnv(m->payload, m->plen, VX_FNV0);
   return h;
 }
 
@@ -651,7 +720,12 @@ case_cuts(uint64_t idx, void *arg) {
   struct space *sp = arg;
   const struct stream *st = &streams[sp->si];
   size_t cuts[4];
-  unrank(idx, st->n - 1, sp->k, cuts);
+  if (st->ncutpos) {
+    unrank(idx, (uint64_t)st->ncutpos, sp->k, cuts);
+    for (int i = 0; i < sp->k; i++)
+      cuts[i] = st->cutpos[cuts[i] - 1];
+  } else
+    unrank(idx, st->n - 1, sp->k, cuts);
   struct result r;
   run_seg(st, cuts, sp->k, &r);
   char detail[200];
@@ -843,6 +917,8 @@ static void
 case_state_search(uint64_t idx, void *arg) {
   (void)arg;
   long s0 = ss_states, t0 = ss_trans;
+  if (streams[idx].ncutpos)
+    return; /* 66 KiB stream: the cut spaces over its header / tail / buffer-boundary offsets and the byte-wise delivery stand for it */
   if (!vx_is_thorough() && (!strncmp(streams[idx].name, "ws-line", 7) || !strcmp(streams[idx].name, "ws-frames") ||
                             !strcmp(streams[idx].name, "tcp-fullbuf"))) {
     /* the search over all segmentations of the three long streams takes minutes (measured: tcp-fullbuf 80 s, ws-frames
@@ -869,13 +945,13 @@ main(int argc, char **argv) {
   build_streams();
   base = mmap(NULL, sizeof(struct result) * NSTREAMS + sizeof(int) * NSTREAMS, PROT_READ | PROT_WRITE, MAP_SHARED | MAP_ANONYMOUS, -1, 0);
   base_ok = (int *)(base + NSTREAMS);
-  struct space sp[32];
+  struct space sp[48];
   int nsp = 0;
   for (int i = 0; i < nstreams; i++)
     for (int k = 0; k <= (T ? 3 : 2); k++) {
-      if (k == 3 && streams[i].n > 330)
+      if (k == 3 && streams[i].n > 330 && !streams[i].ncutpos)
         continue;
-      if (k == 2 && !T && streams[i].n > 1200)
+      if (k == 2 && !T && streams[i].n > 1200 && !streams[i].ncutpos)
         continue;
       if (k == 2 && !T && !strncmp(streams[i].name, "ws-line", 7))
         continue; /* long handshake lines: every single cut and the byte-wise delivery in quick, pairs in thorough */
@@ -923,7 +999,7 @@ main(int argc, char **argv) {
   for (int i = 0; i < nsp; i++) {
     if (sp[i].k == 0)
       continue;
-    uint64_t n = choose(streams[sp[i].si].n - 1, sp[i].k);
+    uint64_t n = choose(streams[sp[i].si].ncutpos ? (uint64_t)streams[sp[i].si].ncutpos : streams[sp[i].si].n - 1, sp[i].k);
     struct vxp_config c = {.space = sp[i].name, .total = n};
     vxp_enumerate(&c, case_cuts, &sp[i], &st);
     total += st.done;
@@ -944,7 +1020,7 @@ main(int argc, char **argv) {
   vx_ev_int("reader_states", (long long)vxp_counter(1));
   vx_ev_int("reader_state_transitions", (long long)vxp_counter(2));
   vx_ev_rule("a real libcoap TCP / WebSocket server session fed a fixed valid byte stream (CSM or HTTP upgrade + 3-5 messages covering TCP length "
-             "forms 0-12/13/14, tokens 0/8/ext-1B/ext-2B and their cross combinations, WS 7/16/64-bit masked frames, a read that fills the 1472-byte buffer, an oversize "
+             "forms 0-12/13/14, tokens 0/8/ext-1B/ext-2B and their cross combinations, the 32-bit length form in a valid 65.8 KB message between two short ones (cuts at every offset of the three headers, the end of the long message and around the first two buffer-size reads), WS 7/16/64-bit masked frames, a read that fills the 1472-byte buffer, an oversize "
              "declared length, a declared length above a configured Max-Message-Size of 600, an over-long handshake line, legal handshake lines of 147 and 159 bytes, a short WebSocket stream) under (1) every placement of <= k "
              "cuts (k = 2, thorough 3 for streams <= 330 bytes; the long-line streams k = 1 in quick), byte-wise and single-chunk, (2) all "
              "2^(N-1) segmentations via BFS over reader states: in quick for the streams tcp-short, tcp-long, tcp-cross, tcp-oversize, ws-small, "
